@@ -5,6 +5,14 @@ DEPS = ("Trusted base: rustc 1.97 nightly (type checker, const evaluator, match 
         "serde_bytes 0.11.19, cosey 0.3.2, iso7816 0.1.4 for value-level encoding/decoding. ")
 
 CLAIMS = {
+    "C10": {
+        "level": "proof",
+        "technique": "static decision-table extraction from typed HIR of the dispatchers (resolved trait-method callees, per-arm effect and `?` plumbing analysis), parametric in the authenticator",
+        "text": "Each dispatcher arm is decided clause by clause (exactly one opaque trait-method call on self with the arm's bindings, the oracle's response constructor, error leaving through one `?` "
+                "with at most a logging-only inspect_err, no other effect, no loop); handlers are opaque trait calls, so the argument is parametric: it holds for every authenticator and every request value. "
+                "All arms x clauses are discharged in all 9 configurations.",
+        "note": DEPS + "Relative to core's `?`/inspect_err semantics and delog's macros expanding to a no-op under the analysed log features.",
+    },
     "C03": {
         "level": "other",
         "technique": "static emission-order analysis: pairwise canonical key order over serialize_field/serialize_entry call sequences read from typed HIR; definite-length call-site rule; serialisable type closure",
@@ -33,7 +41,7 @@ CLAIMS = {
 }
 
 PENDING = "static check not built yet in this round (design in DESIGN.md section 5); not claimed until its rule engine exists"
-NOT_APPLICABLE = {p: PENDING for p in ["C01", "C02", "C04", "C05", "C06", "C07", "C08", "C09", "C10", "C12", "C13", "C14", "C15", "C16", "C17", "C18", "C19"]}
+NOT_APPLICABLE = {p: PENDING for p in ["C01", "C02", "C04", "C05", "C06", "C07", "C08", "C09", "C12", "C13", "C14", "C15", "C16", "C17", "C18", "C19"]}
 for p in CLAIMS:
     NOT_APPLICABLE.pop(p, None)
 
